@@ -6,7 +6,9 @@ from bbox import Sandbox, Rng, blake3_hex, hexs, CLI_BIN, HOST, VERIF
 import bb_hub as H
 
 NAMES = ["a.txt", "b", "d/c.txt", "d/e/f", "sp ace", "m.txt", "n/new.txt", "z.txt", ".copiaignore", ".copia-notes/todo.md", "x.conflict-note"]
-CONTENTS = [b"one\n", b"two two\n", b"", b"3" * 5000, b"\x00\xff", b"six" * 100000]
+CONTENTS = [b"one\n", b"two two\n", b"", b"3" * 5000, b"\x00\xff", b"six" * 100000,
+            # sizes that are exact multiples of the hub's 256 KiB staging chunk, ending in (or consisting of) zeros: sparse-file / hole tricks
+            bytes(range(256)) * 1024 + b"\x00" * 262144, b"\x00" * 524288, b"\x00" * 262144 + b"tail"]
 
 
 def gen_tree(rng, n, pool=NAMES):
@@ -258,6 +260,21 @@ def run(pid, tier, seed, rundir, model_run):
                             res["violations"].append(("exit0-but-local-file-not-on-hub", f"exit 0 but hub/{k} does not hold the local bytes", rep))
             if len(res["samples"]) < 6:
                 res["samples"].append({k: (str(v)[:120]) for k, v in rep.items()})
+    # the hub's control directory is not a place for user files (D12/D17): a local tree that has a top-level `.copia/` is
+    # REFUSED with an error (exit non-zero, nothing stored under .copia), run after run — never a silent conflict pile-up
+    with Sandbox("C13") as sb:
+        hubroot = os.path.join(sb.home, "hubdir"); os.makedirs(hubroot)
+        lr = sb.path("ctl"); sb.write_tree(lr, {".copia/notes": b"user file in the reserved directory\n", "zz.txt": b"ordinary\n"})
+        outs = []
+        for _ in range(2):
+            rc, out, err = sb.run(["hub-sync", lr, hubroot]); nrun += 1
+            outs.append((rc, err.decode("utf-8", "replace")[-160:]))
+        h1 = H.hub_tree(hubroot)
+        stored = sorted(k for k in h1 if k.startswith(".copia/") and not k.endswith("commit.lock"))
+        rep = {"mode": "control-dir", "runs": outs, "hub": sorted(h1)}
+        count("mode/control-dir")
+        if any(rc == 0 for rc, _ in outs) or stored:
+            res["violations"].append(("control-directory-accepted", f"hub-sync of a tree with a top-level .copia/ file: exit codes {[rc for rc, _ in outs]}, stored under .copia: {stored}", rep))
     with open(os.path.join(rundir, "ops.txt"), "w") as f:
         f.write("\n".join(mq) + ("\n" if mq else ""))
     mm = model_run(os.path.join(rundir, "ops.txt")) if mq else []
